@@ -18,6 +18,7 @@ import (
 	"io"
 	"iter"
 	"log/slog"
+	"os"
 	"sort"
 	"strings"
 	"sync"
@@ -1007,7 +1008,11 @@ func (h *harness) run(ops []jop) []step {
 	for i := 0; i < 4 && h.pendingDeploy; i++ {
 		h.release(nil)
 		h.pendingDeploy = false
-		deadline := time.Now().Add(cleanupWait)
+		cw := cleanupWait
+		if caseWedged {
+			cw = time.Millisecond
+		}
+		deadline := time.Now().Add(cw)
 		for time.Now().Before(deadline) {
 			h.job.VerifSync()
 			if h.job.VerifStatus() != "Starting" {
@@ -1202,4 +1207,25 @@ func intParam(c *hx.Case, k string, def int) int {
 	return def
 }
 
-func main() { hx.Main(eng{}) }
+func main() {
+	// a run given explicit cases (-cases: bin/check shrinking a failing case, or a replay) re-executes histories that have
+	// already failed once under the 60 s bound; 10 s there keeps shrinking a wedged tree within minutes and is still
+	// four orders of magnitude above the in-process events waited for. (hx's supervisor hands its worker child -cases
+	// too, so the supervisor tells the child through the environment which kind of run this is.)
+	hasCases, isWorker := false, false
+	for _, a := range os.Args[1:] {
+		if a == "-cases" || strings.HasPrefix(a, "-cases=") {
+			hasCases = true
+		}
+		if a == "-worker" || strings.HasPrefix(a, "-worker=") {
+			isWorker = true
+		}
+	}
+	if hasCases && !isWorker {
+		os.Setenv("VERIF_JOB_EXPLICIT_CASES", "1")
+	}
+	if os.Getenv("VERIF_JOB_EXPLICIT_CASES") == "1" {
+		waitFor = 10 * time.Second
+	}
+	hx.Main(eng{})
+}
